@@ -1,6 +1,8 @@
 (* C06 — an AsyncContext is active exactly while its task, or work it awaits, runs.
-   Statements only; proofs in proofs/MachineDFS.v (flags), proofs/MachineC06T.v (resume/pause trace) and
-   proofs/MachineDFSS.v (flags and trace for programs with SYNCHRONOUS CALLS, statements (8)-(16) at the end).
+   Statements only; proofs in proofs/MachineDFS.v (flags), proofs/MachineC06T.v (resume/pause trace),
+   proofs/MachineDFSS.v (flags and trace for programs with SYNCHRONOUS CALLS, statements (8)-(16)) and
+   proofs/MachineC06S.v (ALTERNATION of the resume/pause events for programs with synchronous calls, statements
+   (17)-(30) at the end).
    The model keeps, per task, the flag _contexts_active; _resume_contexts/_pause_contexts flip it and call
    resume()/pause() on every open context of the task, so the flag IS the state of the task's contexts between
    enter and exit.  An AsyncContext with id cid in task t logs EvResume t cid at every resume() (on entry:
@@ -83,9 +85,38 @@
    (15)/(16) non-vacuity: C06_stree_hypotheses_are_met (the run of c06s_demo with its flags at the nested flush and its
         events: the sibling's context is paused before the flush, the caller's and the root's are not),
         C06_stree_caller_is_quiet (the hypothesis of (12) holds for caller [2] from step 21 to step 40).
+   ALTERNATION FOR TREE PROGRAMS WITH SYNCHRONOUS CALLS (proofs/MachineC06S.v; pointwise P, no_unwind, stree p and
+   wns [] p).  MachineC07.wn has no case for a synchronous call - (27) C06_wn_stree_is_tree: a program that is wn and
+   stree is a yield-only tree program - so the well-nestedness hypothesis is MachineC06S.wns = wn plus the case
+   wns op (Let (FTask q) (fun h => Sync h k))  when  wns [] q  and  wns op (k o)  for every o  ((26) C06_wn_implies_wns;
+   (28) C06_resume_pause_alternate_stree_wn is the literal port with wn, a corollary that adds nothing to (3)).
+   The invariant TO of MachineC06T is carried over MachineDFSS.FLS through nested scheduler loops of any depth:
+   (17) C06_resume_pause_alternate_stree (A1), (18) C06_run_case_resume_pause_alternate_stree on the chronological
+        trace of Machine.run_case: for every task t and context id cid the resume/pause events of (t, cid) strictly
+        alternate, starting with a resume, at every point of the run - also for the contexts of callers that are
+        inside value() while nested loops run and flush, for contexts opened by callees, and across re-use of an id;
+   (19) C06_newest_is_resume_iff_active_stree: the newest event of (t, cid) is a resume exactly when t is an
+        uncompleted task with _contexts_active set and an AsyncContext cid open (statement (4) for stree);
+   (20) C06_all_paused_at_end_stree_trace (A2, end): when the outermost call has returned the newest event of every key
+        that has an event is a pause ("ending with pause");
+   (21) C06_resumed_at_flush_stree (A2, flush): at the end of every _execute pass (outermost or nested) a key whose
+        newest event is a resume belongs to a task that is ON the scheduler's stack and is a caller inside value() or
+        has tk_ds set; (22) C06_all_paused_at_outer_flush_stree_trace: at a flush of the outermost loop every key is
+        paused (statement (5) for stree, outer flushes);
+   (23) C06_resumed_while_code_runs_stree (A3): while the body of t runs every AsyncContext open in t AND in every caller
+        suspended in a synchronous call that led to t's code has a resume as newest event; (24)
+        C06_caller_contexts_resumed_stree: the same for the callers at EVERY non-final configuration (inside nested
+        loops and flushes); (25) C06_resumed_only_on_stack_stree: while t runs a key whose newest event is a resume
+        belongs to t, to a caller inside value(), or to a task on the stack with tk_ds set;
+   REFUTED (29) C06_all_paused_at_every_flush_stree_trace_is_false: statement (5) for every flush, even with the callers
+        inside value() excepted, is false for stree (witness c06n_demo, step 39: a loop nested two calls deep flushes
+        while the root's context 0 is resumed) - the trace form of (14); (21)/(22) are the true variants;
+   (30) C06_stree_alternation_hypotheses_are_met / C06_stree_alternation_demo_is_not_tree: non-vacuity (c06n_demo: calls
+        nested two deep, contexts in callers and callees, an id re-used inside a caller; all events of the run; the
+        program is stree and wns but neither tree nor wn).
    NOT PROVED: for stree programs - that a task with tk_ds set on the stack AWAITS the running task / the caller (the
-   layer structure of MachineC04/C07 is not ported to the stree invariant, so (7) and its converse are open there),
-   alternation (3)-(6) of the events (only (12) is proved on the trace); programs outside tree/stree/wn - Sync on an
+   layer structure of MachineC04/C07 is not ported to the stree invariant, so (7) and its converse are open there; (21)
+   and (25) say "on the stack with tk_ds set" instead of "awaits"); programs outside tree/stree/wn/wns - Sync on an
    existing handle (LOld / value() of a shared future), ReadVar/Probe branching, shared futures (DAGs), with-blocks
    left open when a task ends, contexts whose resume()/pause() raise, NonAsyncContext (three runs computed in
    C06_former_witnesses_alternate; nothing proved), non-pointwise services, runs in which the task-stack guard fired;
@@ -348,3 +379,153 @@ Example C06_stree_caller_is_quiet :
   cevt [2%Z] (c_st (c 42%nat)) = [EvPause [2%Z] 1; EvResume [2%Z] 1].
 Proof. exact c06s_demo_quiet. Qed.
 Print Assumptions C06_stree_caller_is_quiet.
+
+(* ------------------------------------------------------------------ alternation for tree programs with synchronous calls *)
+From Asynq Require Import proofs.MachineC06S.
+
+(* A1 *)
+Theorem C06_resume_pause_alternate_stree : forall P, pointwise P -> forall p, stree p -> wns [] p -> forall n t cid,
+  let h := fst (create [] (FTask p) (st0 P)) in
+  let s1 := snd (create [] (FTask p) (st0 P)) in
+  no_unwind P n (start h s1) ->
+  alternates t cid true (ctx_events t cid (trace (c_st (run P n (start h s1))))).
+Proof. exact resume_pause_alternate_stree. Qed.
+Print Assumptions C06_resume_pause_alternate_stree.
+
+Theorem C06_run_case_resume_pause_alternate_stree : forall P p n t cid,
+  pointwise P -> stree p -> wns [] p ->
+  no_unwind P n (start (fst (create [] (FTask p) (st0 P))) (snd (create [] (FTask p) (st0 P)))) ->
+  alternates t cid true (filter (evk t cid) (snd (run_case P n [p]))).
+Proof. exact run_case_resume_pause_alternate_stree. Qed.
+Print Assumptions C06_run_case_resume_pause_alternate_stree.
+
+(* the invariant *)
+Theorem C06_newest_is_resume_iff_active_stree : forall P, pointwise P -> forall p, stree p -> wns [] p -> forall n t cid,
+  let h := fst (create [] (FTask p) (st0 P)) in
+  let s1 := snd (create [] (FTask p) (st0 P)) in
+  no_unwind P n (start h s1) ->
+  let s := c_st (run P n (start h s1)) in
+  (exists rest, filter (evk t cid) (trace s) = EvResume t cid :: rest) <->
+  (exists tk f, get t s = Some (mkFut None (KTask tk)) /\ tk_cact tk = true /\ In (CAsync cid f) (tk_ctxs tk)).
+Proof. exact newest_is_resume_iff_active_stree. Qed.
+Print Assumptions C06_newest_is_resume_iff_active_stree.
+
+(* A2, end *)
+Theorem C06_all_paused_at_end_stree_trace : forall P, pointwise P -> forall p, stree p -> wns [] p -> forall n t cid o,
+  let h := fst (create [] (FTask p) (st0 P)) in
+  let s1 := snd (create [] (FTask p) (st0 P)) in
+  no_unwind P n (start h s1) -> c_mode (run P n (start h s1)) = MDone o ->
+  match filter (evk t cid) (trace (c_st (run P n (start h s1)))) with [] => True | e :: _ => e = EvPause t cid end.
+Proof. exact all_paused_at_end_stree_events. Qed.
+Print Assumptions C06_all_paused_at_end_stree_trace.
+
+(* A2, flush *)
+Theorem C06_resumed_at_flush_stree : forall P, pointwise P -> forall p, stree p -> wns [] p -> forall n t cid,
+  let h := fst (create [] (FTask p) (st0 P)) in
+  let s1 := snd (create [] (FTask p) (st0 P)) in
+  no_unwind P n (start h s1) -> c_mode (run P n (start h s1)) = MAfterExec ->
+  let c := run P n (start h s1) in
+  (exists rest, filter (evk t cid) (trace (c_st c)) = EvResume t cid :: rest) ->
+  In t (tasks (c_st c)) /\
+  exists tk, get t (c_st c) = Some (mkFut None (KTask tk)) /\ (In t (fvals (c_frames c)) \/ tk_ds tk = true).
+Proof. exact resumed_at_flush_stree. Qed.
+Print Assumptions C06_resumed_at_flush_stree.
+
+Theorem C06_all_paused_at_outer_flush_stree_trace : forall P, pointwise P -> forall p, stree p -> wns [] p -> forall n t cid,
+  let h := fst (create [] (FTask p) (st0 P)) in
+  let s1 := snd (create [] (FTask p) (st0 P)) in
+  no_unwind P n (start h s1) -> c_mode (run P n (start h s1)) = MAfterExec ->
+  fvals (c_frames (run P n (start h s1))) = [] ->
+  match filter (evk t cid) (trace (c_st (run P n (start h s1)))) with [] => True | e :: _ => e = EvPause t cid end.
+Proof. exact all_paused_at_outer_flush_stree. Qed.
+Print Assumptions C06_all_paused_at_outer_flush_stree_trace.
+
+(* A3 *)
+Theorem C06_resumed_while_code_runs_stree : forall P, pointwise P -> forall p, stree p -> wns [] p -> forall n t q x,
+  let h := fst (create [] (FTask p) (st0 P)) in
+  let s1 := snd (create [] (FTask p) (st0 P)) in
+  no_unwind P n (start h s1) -> c_mode (run P n (start h s1)) = MRun t q ->
+  let c := run P n (start h s1) in
+  x = t \/ In x (fvals (c_frames c)) ->
+  forall tk, get x (c_st c) = Some (mkFut None (KTask tk)) -> forall cid f, In (CAsync cid f) (tk_ctxs tk) ->
+    exists rest, filter (evk x cid) (trace (c_st c)) = EvResume x cid :: rest.
+Proof. exact resumed_while_code_runs_stree. Qed.
+Print Assumptions C06_resumed_while_code_runs_stree.
+
+Theorem C06_caller_contexts_resumed_stree : forall P, pointwise P -> forall p, stree p -> wns [] p -> forall n x,
+  let h := fst (create [] (FTask p) (st0 P)) in
+  let s1 := snd (create [] (FTask p) (st0 P)) in
+  no_unwind P n (start h s1) -> is_final (c_mode (run P n (start h s1))) = false ->
+  let c := run P n (start h s1) in
+  In x (fvals (c_frames c)) ->
+  exists tk, get x (c_st c) = Some (mkFut None (KTask tk)) /\
+    forall cid f, In (CAsync cid f) (tk_ctxs tk) -> exists rest, filter (evk x cid) (trace (c_st c)) = EvResume x cid :: rest.
+Proof. exact caller_contexts_resumed_stree. Qed.
+Print Assumptions C06_caller_contexts_resumed_stree.
+
+Theorem C06_resumed_only_on_stack_stree : forall P, pointwise P -> forall p, stree p -> wns [] p -> forall n t q u cid,
+  let h := fst (create [] (FTask p) (st0 P)) in
+  let s1 := snd (create [] (FTask p) (st0 P)) in
+  no_unwind P n (start h s1) -> c_mode (run P n (start h s1)) = MRun t q ->
+  let c := run P n (start h s1) in
+  (exists rest, filter (evk u cid) (trace (c_st c)) = EvResume u cid :: rest) ->
+  In u (tasks (c_st c)) /\
+  (u = t \/ In u (fvals (c_frames c)) \/ exists tk, get u (c_st c) = Some (mkFut None (KTask tk)) /\ tk_ds tk = true).
+Proof. exact resumed_only_on_stack_stree. Qed.
+Print Assumptions C06_resumed_only_on_stack_stree.
+
+(* wn versus wns *)
+Theorem C06_wn_implies_wns : forall op p, wn op p -> wns op p.
+Proof. exact wn_wns. Qed.
+Print Assumptions C06_wn_implies_wns.
+
+Theorem C06_wn_stree_is_tree : forall op p, wn op p -> stree p -> tree p.
+Proof. exact wn_stree_tree. Qed.
+Print Assumptions C06_wn_stree_is_tree.
+
+Theorem C06_resume_pause_alternate_stree_wn : forall P p n t cid,
+  pointwise P -> stree p -> wn [] p ->
+  no_unwind P n (start (fst (create [] (FTask p) (st0 P))) (snd (create [] (FTask p) (st0 P)))) ->
+  alternates t cid true (ctx_events t cid (trace (c_st (run P n (start (fst (create [] (FTask p) (st0 P))) (snd (create [] (FTask p) (st0 P)))))))).
+Proof. exact resume_pause_alternate_stree_wn. Qed.
+Print Assumptions C06_resume_pause_alternate_stree_wn.
+
+(* A2 for EVERY flush is false once synchronous calls are allowed *)
+Theorem C06_all_paused_at_every_flush_stree_trace_is_false :
+  ~ (forall P, pointwise P -> forall p, stree p -> wns [] p -> forall n t cid,
+     let h := fst (create [] (FTask p) (st0 P)) in
+     let s1 := snd (create [] (FTask p) (st0 P)) in
+     no_unwind P n (start h s1) -> c_mode (run P n (start h s1)) = MAfterExec ->
+     ~ In t (fvals (c_frames (run P n (start h s1)))) ->
+     match filter (evk t cid) (trace (c_st (run P n (start h s1)))) with [] => True | e :: _ => e = EvPause t cid end).
+Proof. exact all_paused_at_every_flush_stree_is_false. Qed.
+Print Assumptions C06_all_paused_at_every_flush_stree_trace_is_false.
+
+(* non-vacuity: root [0] (ctx 0) awaits sibling [1] (ctx 2) and caller [2] (ctx 5); [2] calls mid [4] synchronously; [4]
+   (ctx 1, then ctx 1 again) calls leaf [5] and then leaf [7] synchronously (ctx 7 each), which block on batch items *)
+Theorem C06_stree_alternation_hypotheses_are_met :
+  let P := c06s_P in
+  let h := fst (create [] (FTask c06n_demo) (st0 P)) in
+  let s1 := snd (create [] (FTask c06n_demo) (st0 P)) in
+  let c k := run P k (start h s1) in
+  let R t i := EvResume t i in let Z t i := EvPause t i in
+  stree c06n_demo /\ wns [] c06n_demo /\ pointwise P /\ no_unwind_b P 300 (start h s1) = true /\
+  c_mode (c 300%nat) = MDone (Ok (VTuple [VInt 10; VInt 30])) /\
+  filter isctx (rev (trace (c_st (c 300%nat)))) =
+    [R [0] 0; R [1] 2; Z [1] 2; R [2] 5; R [4] 1; R [5] 7; Z [5] 7; R [5] 7; Z [5] 7; Z [4] 1; R [4] 1;
+     R [7] 7; Z [7] 7; R [7] 7; Z [7] 7; Z [4] 1; Z [2] 5; Z [0] 0; R [0] 0; R [1] 2; Z [1] 2; Z [0] 0] /\
+  ctx_events [0] 0 (trace (c_st (c 300%nat))) = [R [0] 0; Z [0] 0; R [0] 0; Z [0] 0] /\
+  ctx_events [4] 1 (trace (c_st (c 300%nat))) = [R [4] 1; Z [4] 1; R [4] 1; Z [4] 1] /\
+  ctx_events [5] 7 (trace (c_st (c 300%nat))) = [R [5] 7; Z [5] 7; R [5] 7; Z [5] 7] /\
+  ctx_events [2] 5 (trace (c_st (c 300%nat))) = [R [2] 5; Z [2] 5] /\
+  map (fun k => (k, fvals (c_frames (c k)), tasks (c_st (c k))))
+      (filter (fun k => match c_mode (c k) with MAfterExec => true | _ => false end) (seq 0 300)) =
+    [(39%nat, [[4]; [2]], [[4]; [2]; [0]]); (48%nat, [[4]; [2]], [[4]; [2]; [0]]); (65%nat, [[4]; [2]], [[4]; [2]; [0]]);
+     (74%nat, [[4]; [2]], [[4]; [2]; [0]]); (81%nat, [[2]], [[2]; [0]]); (89%nat, [], []); (105%nat, [], [])]%Z /\
+  filter isctx (rev (trace (c_st (c 39%nat)))) = [R [0] 0; R [1] 2; Z [1] 2; R [2] 5; R [4] 1; R [5] 7; Z [5] 7].
+Proof. exact c06n_demo_runs. Qed.
+Print Assumptions C06_stree_alternation_hypotheses_are_met.
+
+Theorem C06_stree_alternation_demo_is_not_tree : ~ tree c06n_demo /\ ~ wn [] c06n_demo.
+Proof. exact c06n_demo_not_tree. Qed.
+Print Assumptions C06_stree_alternation_demo_is_not_tree.
